@@ -176,6 +176,62 @@ theorem meta_output_generator (c : Render.Cfg) (n : Nat) (a : Attrs) (ks : List 
     out c .metaxml d = .xml (metaTree (.elem n a (ks.filter (fun k => !isGen k) ++ [genNode c.tv]))) := by
   simp [out, (normGen_meta c.tv n a ks d h).1]
 
+/-! ### several live documents -/
+
+theorem modifyAt_other (f : Doc → Doc) (i j : Nat) (w : List Doc) (h : j ≠ i) : (modifyAt f i w)[j]? = w[j]? := by
+  induction w generalizing i j with
+  | nil => simp [modifyAt]
+  | cons d r ih =>
+    cases i with
+    | zero =>
+      cases j with
+      | zero => exact absurd rfl h
+      | succ j => simp [modifyAt]
+    | succ i =>
+      cases j with
+      | zero => simp [modifyAt]
+      | succ j => simp only [modifyAt, List.getElem?_cons_succ]; exact ih i j (by omega)
+
+theorem modifyAt_self (f : Doc → Doc) (i : Nat) (w : List Doc) : (modifyAt f i w)[i]? = w[i]?.map f := by
+  induction w generalizing i with
+  | nil => simp [modifyAt]
+  | cons d r ih =>
+    cases i with
+    | zero => simp [modifyAt]
+    | succ i => simp only [modifyAt, List.getElem?_cons_succ]; exact ih i
+
+/-- **C12 (other documents)**: an output call on one document leaves every other live document
+    exactly as it was. -/
+theorem render_other_untouched (c : Render.Cfg) (w : List Doc) (i j : Nat) (op : Op) (h : j ≠ i) :
+    (runW c [(i, op)] w)[j]? = w[j]? := by
+  simp only [runW]; exact modifyAt_other _ i j w h
+
+/-- **C12 (purity, any number of documents)**: after any interleaving of output calls on any of the
+    live documents, each document is what it was, or what it was with its own generator normalised. -/
+theorem world_pure (c : Render.Cfg) (calls : List (Nat × Op)) (w : List Doc) (j : Nat) :
+    (runW c calls w)[j]? = w[j]? ∨ (runW c calls w)[j]? = w[j]?.map (normGen c.tv) := by
+  induction calls generalizing w with
+  | nil => exact Or.inl rfl
+  | cons call r ih =>
+    obtain ⟨i, op⟩ := call
+    simp only [runW]
+    by_cases hji : j = i
+    · subst hji
+      have hs := modifyAt_self (step c op) j w
+      rcases ih (modifyAt (step c op) j w) with h | h
+      · rw [h, hs]
+        cases hw : w[j]? with
+        | none => simp
+        | some d => rcases step_cases c op d with h' | h' <;> simp [h']
+      · rw [h, hs]
+        cases hw : w[j]? with
+        | none => simp
+        | some d => rcases step_cases c op d with h' | h' <;> simp [h', normGen_idempotent]
+    · have ho := modifyAt_other (step c op) i j w hji
+      rcases ih (modifyAt (step c op) i w) with h | h
+      · exact Or.inl (by rw [h, ho])
+      · exact Or.inr (by rw [h, ho])
+
 /-- hypotheses are satisfiable / the statements are not vacuous: a document with a foreign generator
     in front of a title really changes on the first `xml()` and not on `contentxml()` -/
 def sample : Doc :=
@@ -183,7 +239,7 @@ def sample : Doc :=
     metaEl := .elem 20 [] [.elem eGenerator [] [.text (str "Other/1.0")], .elem 21 [] [.text (str "T")]],
     part := { scripts := .elem 22 [] [], ffd := .elem 23 [] [], settings := .elem 24 [] [],
               styles := .elem 25 [] [], auto := .elem 26 [] [], master := .elem 27 [] [], body := .elem 28 [] [] },
-    pictures := [], objects := [], thumbnail := none, extras := [] }
+    pictures := [], objects := [], thumbnail := none, thumbType := [], extras := [] }
 
 example : (run ⟨⟨[], [], fun _ => false⟩, str "ODFPY/x"⟩ [.xml] sample).metaEl =
     .elem 20 [] [.elem 21 [] [.text (str "T")], .elem eGenerator [] [.text (str "ODFPY/x")]] := by rfl
